@@ -240,6 +240,15 @@ type Built struct {
 	after []func()
 }
 
+// CallerReuse lets the caller come back to the readers and buffers it handed to the Attach*/Embed*
+// calls (drain them, rewind them, overwrite its scratch buffers) - as it does once right after building,
+// and as it may again at any later time, e.g. between two renders.
+func (b *Built) CallerReuse() {
+	for _, fn := range b.after {
+		fn()
+	}
+}
+
 // Env holds per-process resources for builders.
 type Env struct {
 	Dir string
@@ -667,7 +676,13 @@ func Build(spec *MsgSpec, env *Env) (*Built, error) {
 			} else {
 				err = m.AttachReader(f.Name, buf, fopts...)
 			}
-			b.after = append(b.after, func() { buf.Reset(); buf.WriteString(strings.Repeat("OVERWRITTEN-BY-THE-CALLER ", 40)) })
+			reuses := 0
+			b.after = append(b.after, func() {
+				// different bytes every time the caller comes back to its scratch buffer
+				reuses++
+				buf.Reset()
+				buf.WriteString(strings.Repeat(fmt.Sprintf("OVERWRITTEN-BY-THE-CALLER-%d ", reuses), 40))
+			})
 		default: // reader
 			if embed {
 				err = m.EmbedReader(f.Name, bytes.NewReader(f.Content), fopts...)
